@@ -204,6 +204,7 @@ package handler
 //@ ensures[C06,C17] rangeError == nil ==> timeFromTimestamp.ns == newStartOfWeek.ns + timestamp * MSEC && timeFromTimestamp.loc == startOfWeek.loc
 //@ ensures rangeError != nil ==> newStartOfWeek == startOfWeek
 //@ ensures[C06] rangeError != nil ==> len(errmsg(rangeError)) > 0
+//@ ensures[C02] rangeError != nil ==> errmsg(rangeError) != "done"
 
 //@ func (*Handler).getUTCFromGPSTime
 //@ requires[C07] rtcmHandler != nil
@@ -214,6 +215,7 @@ package handler
 //@ ensures[C06,C17] r1 == nil ==> r0.ns == rtcmHandler.startOfGPSWeek.ns + timestamp * MSEC && r0.loc == old(rtcmHandler.startOfGPSWeek.loc)
 //@ ensures[C06,C17] r1 == nil ==> rtcmHandler.startOfGPSWeek.loc == old(rtcmHandler.startOfGPSWeek.loc)
 //@ ensures[C06] r1 != nil ==> len(errmsg(r1)) > 0
+//@ ensures[C02] r1 != nil ==> errmsg(r1) != "done"
 //@ ensures r1 != nil ==> rtcmHandler.startOfGPSWeek == old(rtcmHandler.startOfGPSWeek) && rtcmHandler.timestampFromPreviousGPSMessage == old(rtcmHandler.timestampFromPreviousGPSMessage)
 
 //@ func (*Handler).getUTCFromGalileoTime
@@ -225,6 +227,7 @@ package handler
 //@ ensures[C06,C17] r1 == nil ==> r0.ns == rtcmHandler.startOfGalileoWeek.ns + timestamp * MSEC && r0.loc == old(rtcmHandler.startOfGalileoWeek.loc)
 //@ ensures[C06,C17] r1 == nil ==> rtcmHandler.startOfGalileoWeek.loc == old(rtcmHandler.startOfGalileoWeek.loc)
 //@ ensures[C06] r1 != nil ==> len(errmsg(r1)) > 0
+//@ ensures[C02] r1 != nil ==> errmsg(r1) != "done"
 //@ ensures r1 != nil ==> rtcmHandler.startOfGalileoWeek == old(rtcmHandler.startOfGalileoWeek) && rtcmHandler.timestampFromPreviousGalileoMessage == old(rtcmHandler.timestampFromPreviousGalileoMessage)
 
 //@ func (*Handler).getUTCFromBeidouTime
@@ -236,6 +239,7 @@ package handler
 //@ ensures[C06,C17] r1 == nil ==> r0.ns == rtcmHandler.startOfBeidouWeek.ns + timestamp * MSEC && r0.loc == old(rtcmHandler.startOfBeidouWeek.loc)
 //@ ensures[C06,C17] r1 == nil ==> rtcmHandler.startOfBeidouWeek.loc == old(rtcmHandler.startOfBeidouWeek.loc)
 //@ ensures[C06] r1 != nil ==> len(errmsg(r1)) > 0
+//@ ensures[C02] r1 != nil ==> errmsg(r1) != "done"
 //@ ensures r1 != nil ==> rtcmHandler.startOfBeidouWeek == old(rtcmHandler.startOfBeidouWeek) && rtcmHandler.timestampFromPreviousBeidouMessage == old(rtcmHandler.timestampFromPreviousBeidouMessage)
 
 // GLONASS: legal iff day <= 6 and milliseconds < 24 h
@@ -244,7 +248,7 @@ package handler
 //@ define gloLegal(ts) = ts <= 6 * 134217728 + 86399999 && gloMs(ts) < 86400000
 //@ func (*Handler).getUTCFromGlonassTime
 //@ requires[C07] rtcmHandler != nil
-//@ requires HandlerInv(rtcmHandler)
+//@ requires[C06,C17] HandlerInv(rtcmHandler)
 //@ requires timestamp < 1073741824
 //@ modifies rtcmHandler.startOfGlonassWeek, rtcmHandler.glonassDayFromPreviousMessage
 //@ ensures (r1 == nil) == gloLegal(timestamp)
@@ -252,6 +256,7 @@ package handler
 //@ ensures[C06,C17] r1 == nil ==> r0.ns == rtcmHandler.startOfGlonassWeek.ns + gloDay(timestamp) * DAY + gloMs(timestamp) * MSEC && r0.loc == old(rtcmHandler.startOfGlonassWeek.loc)
 //@ ensures[C06,C17] r1 == nil ==> rtcmHandler.startOfGlonassWeek.loc == old(rtcmHandler.startOfGlonassWeek.loc)
 //@ ensures[C06] r1 != nil ==> len(errmsg(r1)) > 0
+//@ ensures[C02] r1 != nil ==> errmsg(r1) != "done"
 //@ ensures r1 != nil ==> rtcmHandler.startOfGlonassWeek == old(rtcmHandler.startOfGlonassWeek) && rtcmHandler.glonassDayFromPreviousMessage == old(rtcmHandler.glonassDayFromPreviousMessage)
 
 //@ func getStartOfLastSundayUTC
